@@ -83,6 +83,11 @@ func SnapshotModule(root string, m *Module) (Tree, error) {
 	if err != nil {
 		return nil, err
 	}
+	if m.Work == "parent" {
+		if b, err := os.ReadFile(filepath.Join(root, "..", "go.work")); err == nil {
+			t["../go.work"] = b
+		}
+	}
 	for _, x := range m.Ext {
 		if !strings.HasPrefix(x.Dir, "../") {
 			continue
@@ -316,6 +321,20 @@ func shrinkExt(sc Scenario) []Scenario {
 			}
 			c.Module.Pkgs[pi].XImports = keep
 		}
+		for yi := range c.Module.Ext {
+			for pi := range c.Module.Ext[yi].Pkgs {
+				var keep []string
+				for _, im := range c.Module.Ext[yi].Pkgs[pi].XImports {
+					if !(im == x.ModPath || strings.HasPrefix(im, x.ModPath+"/")) || c.Module.ExtOf(im) != nil {
+						keep = append(keep, im)
+					}
+				}
+				c.Module.Ext[yi].Pkgs[pi].XImports = keep
+			}
+		}
+		if run, _ := sc.RunModule(); run != nil && run.Dir == x.Dir {
+			continue // the entrypoints lie in this member
+		}
 		for gi := range c.Gens {
 			for k := range c.Gens[gi].Steps {
 				pp := k[:strings.Index(k, " ")]
@@ -347,6 +366,14 @@ func shrinkExt(sc Scenario) []Scenario {
 			for _, q := range sc.Module.Pkgs {
 				imported = imported || containsStr(q.XImports, x.PkgPath(p.Dir))
 			}
+			for _, y := range sc.Module.Ext { // members of a workspace import one another; packages of one member, too
+				for _, q := range y.Pkgs {
+					imported = imported || containsStr(q.XImports, x.PkgPath(p.Dir)) || (y.Dir == x.Dir && containsStr(q.Imports, p.Dir))
+				}
+			}
+			for _, e := range sc.Entry {
+				imported = imported || entryDir(e) == strings.TrimSuffix(x.Dir+"/"+p.Dir, "/")
+			}
 			if !imported && len(x.Pkgs) > 1 {
 				c := clone(sc)
 				ps := c.Module.Ext[xi].Pkgs
@@ -368,6 +395,46 @@ func shrinkExt(sc Scenario) []Scenario {
 			xs := c.Module.Pkgs[pi].XImports
 			c.Module.Pkgs[pi].XImports = append(xs[:ii], xs[ii+1:]...)
 			out = append(out, c)
+		}
+	}
+	for xi, x := range sc.Module.Ext {
+		for pi, p := range x.Pkgs {
+			for ii := range p.XImports {
+				c := clone(sc)
+				xs := c.Module.Ext[xi].Pkgs[pi].XImports
+				c.Module.Ext[xi].Pkgs[pi].XImports = append(xs[:ii], xs[ii+1:]...)
+				out = append(out, c)
+			}
+			if len(p.Imports) > 0 {
+				c := clone(sc)
+				c.Module.Ext[xi].Pkgs[pi].Imports = nil
+				out = append(out, c)
+			}
+		}
+	}
+	if sc.Module.Work != "" {
+		if sc.Module.Work == "parent" {
+			c := clone(sc)
+			c.Module.Work = "root"
+			out = append(out, c)
+		}
+		if sc.Module.WorkOnly {
+			c := clone(sc)
+			c.Module.WorkOnly = false
+			out = append(out, c)
+		}
+		if run, _ := sc.RunModule(); run == nil {
+			ok := true
+			for _, x := range sc.Module.Ext {
+				for _, p := range x.Pkgs {
+					ok = ok && len(p.XImports) == 0
+				}
+			}
+			if ok { // the same modules without the workspace (require + replace)
+				c := clone(sc)
+				c.Module.Work, c.Module.WorkOnly = "", false
+				out = append(out, c)
+			}
 		}
 	}
 	return out
